@@ -28,6 +28,14 @@ static SHARED: OnceLock<Option<Shared>> = OnceLock::new();
 static NEXT_SLOT: AtomicUsize = AtomicUsize::new(0);
 static SKIP: OnceLock<Mutex<HashMap<u64, String>>> = OnceLock::new();
 static WALL_LIMIT_MS: AtomicUsize = AtomicUsize::new(10_000);
+/// per slot: the CPU clock of the thread that owns it and the CPU time (ms) it had at `enter`
+static CPU_CLOCK: [std::sync::atomic::AtomicI64; NSLOTS] = [const { std::sync::atomic::AtomicI64::new(-1) }; NSLOTS];
+static CPU_AT_ENTER: [std::sync::atomic::AtomicU64; NSLOTS] = [const { std::sync::atomic::AtomicU64::new(0) }; NSLOTS];
+
+fn cpu_ms(clock: libc::clockid_t) -> Option<u64> {
+    let mut ts = libc::timespec { tv_sec: 0, tv_nsec: 0 };
+    if unsafe { libc::clock_gettime(clock, &mut ts) } == 0 { Some(ts.tv_sec as u64 * 1000 + ts.tv_nsec as u64 / 1_000_000) } else { None }
+}
 
 thread_local! {
     static MY_SLOT: usize = NEXT_SLOT.fetch_add(1, Ordering::SeqCst) % NSLOTS;
@@ -138,6 +146,13 @@ pub fn enter(sql: &str, ctx: u64) {
             std::ptr::write_volatile(p.add(8) as *mut u32, n as u32);
             std::ptr::write_volatile(p.add(12) as *mut u32, if bytes.len() > n { 1 } else { 0 });
             std::ptr::write_volatile(p.add(16) as *mut u64, fnv(sql) ^ ctx.wrapping_mul(0x9E3779B97F4A7C15));
+            let mut clk: libc::clockid_t = 0;
+            if libc::pthread_getcpuclockid(libc::pthread_self(), &mut clk) == 0 {
+                CPU_AT_ENTER[s].store(cpu_ms(clk).unwrap_or(0), Ordering::SeqCst);
+                CPU_CLOCK[s].store(clk as i64, Ordering::SeqCst);
+            } else {
+                CPU_CLOCK[s].store(-1, Ordering::SeqCst);
+            }
             std::ptr::write_volatile(p as *mut u64, now_ms());
         });
     }
@@ -152,6 +167,10 @@ pub fn leave() {
 }
 
 fn read_slots(base: *mut u8) -> Vec<(u64, String, u64, String)> {
+    read_slots_idx(base).into_iter().map(|x| x.1).collect()
+}
+
+fn read_slots_idx(base: *mut u8) -> Vec<(usize, (u64, String, u64, String))> {
     let mut out = Vec::new();
     for s in 0..NSLOTS {
         unsafe {
@@ -165,7 +184,7 @@ fn read_slots(base: *mut u8) -> Vec<(u64, String, u64, String)> {
             let bytes = std::slice::from_raw_parts(p.add(96), n);
             let tagb = std::slice::from_raw_parts(p.add(24), 64);
             let tag = String::from_utf8_lossy(&tagb[..tagb.iter().position(|x| *x == 0).unwrap_or(64)]).to_string();
-            out.push((t, String::from_utf8_lossy(bytes).to_string(), hash, tag));
+            out.push((s, (t, String::from_utf8_lossy(bytes).to_string(), hash, tag)));
         }
     }
     out
@@ -182,8 +201,18 @@ fn watchdog(sh: usize) {
         std::thread::sleep(std::time::Duration::from_millis(200));
         let limit = WALL_LIMIT_MS.load(Ordering::SeqCst) as u64;
         let now = now_ms();
-        for (t, sql, hash, tag) in read_slots(sh as *mut u8) {
-            if now.saturating_sub(t) > limit {
+        for (slot, (t, sql, hash, tag)) in read_slots_idx(sh as *mut u8) {
+            let wall = now.saturating_sub(t);
+            if wall <= limit {
+                continue;
+            }
+            // A hang inside a poll burns CPU on the owning thread. A thread that is merely starved
+            // (machine under load, page-fault stalls) has used little CPU since `enter`: it is given
+            // 8x the wall limit before the statement is declared hung.
+            let clk = CPU_CLOCK[slot].load(Ordering::SeqCst);
+            let burned = if clk >= 0 { cpu_ms(clk as libc::clockid_t).map(|c| c.saturating_sub(CPU_AT_ENTER[slot].load(Ordering::SeqCst))) } else { None };
+            let busy = burned.map(|b| b * 2 > limit).unwrap_or(true);
+            if busy || wall > limit * 8 {
                 record_skip(&sql, hash, "hang", &tag);
                 eprintln!("verif-guard: statement exceeded the {limit} ms wall limit, restarting without it: {}", crate::infra::one_line(&sql, 200));
                 std::process::exit(3);
@@ -199,7 +228,10 @@ pub fn supervise(args: &[String]) -> i32 {
     let dir = crate::infra::verif_root().join("target").join("guard");
     let _ = std::fs::create_dir_all(&dir);
     let pid = std::process::id();
-    let inflight = dir.join(format!("inflight.{pid}"));
+    // the in-flight table lives on tmpfs when there is one: stores to a disk-backed shared mapping can
+    // stall for seconds behind unrelated write-back, which would look like a hang
+    let shm = std::path::Path::new("/dev/shm");
+    let inflight = if shm.is_dir() { shm.join(format!("verif-guard-inflight.{pid}")) } else { dir.join(format!("inflight.{pid}")) };
     let skip = dir.join(format!("skip.{pid}.jsonl"));
     let _ = std::fs::remove_file(&inflight);
     let _ = std::fs::remove_file(&skip);
